@@ -393,3 +393,33 @@ Theorem C20_entry_list_on_the_rule_slice_refuted :
   logged_of (eworld_run entries_fresh ew_sched ew_demo) 2 = [0; 1; 2; 4]%nat.
 Proof. exact entry_list_on_the_rule_slice_refuted. Qed.
 Print Assumptions C20_entry_list_on_the_rule_slice_refuted.
+
+(* ============================ the scan, as one theorem over all strings ===================== *)
+
+(* For EVERY format string and every substitution function (every request): the format is, from
+   left to right, literal_1 placeholder_1 ... literal_n placeholder_n tail (each placeholder a
+   "{" ... "}" stretch of the format, the literals possibly empty: adjacent placeholders, a
+   placeholder at position 0), and Replace returns exactly
+     unescaped literal_1 ++ VALUE_1 ++ ... ++ unescaped literal_n ++ VALUE_n ++ unescaped tail
+   where VALUE_i = gs (unescaped placeholder_i) stands in the output once, at its place, as it
+   is: gs is arbitrary, so a value that begins or ends with a backslash, contains braces,
+   escapes or whole placeholders is not trimmed, unescaped or scanned (only the literal text of
+   the FORMAT loses its brace escapes and, a quirk of the code that the model reproduces, one
+   leading backslash per literal); the tail holds no further complete unescaped placeholder. *)
+Theorem C20_replace_scan_decomposition :
+  forall (gs : bytes -> bytes) (fmt : bytes),
+  exists ps tail,
+    fmt = pieces_cat ps ++ tail /\ Forall (fun p => braced (snd p)) ps /\
+    (has_brace fmt = true -> scan_step tail = Ok None) /\
+    template fmt = Ok (pieces_template ps tail) /\
+    expand gs fmt = Ok (pieces_out gs ps tail).
+Proof. exact replace_scan_decomposition. Qed.
+Print Assumptions C20_replace_scan_decomposition.
+
+(* a placeholder at position 0 directly followed by another, values beginning / ending with a
+   backslash and containing braces, escapes and placeholders: inserted as they are, once each *)
+Example C20_replace_scan_decomposition_witness :
+  let gs := fun k => if beq k (bs "{a}") then bs "\{b}\" else if beq k (bs "{b}") then bs "\\}{a}{" else bs "-" in
+  expand gs (bs "{a}{b}{a}") = Ok (bs "\{b}\\\}{a}{\{b}\") /\
+  expand gs (bs "{b}x\{{a}\}{c}") = Ok (bs "\\}{a}{x{\{b}\}-").
+Proof. vm_compute. split; reflexivity. Qed.
